@@ -59,3 +59,10 @@ claim("C13", "proof",
       "the decode-first direction holds for every byte string of every length below 2^31 (content proved at one arbitrary watched index).",
       "32-bit limit for rate*channels*width read as INT_MAX (API computes in int). pack.c callees inlined (contracts enforced under C12). Accepted check classes as C12.",
       "DESIGN.md 5.C13")
+
+claim("C20", "proof",
+      "CBMC function contracts (goto-instrument --dfcc) on vmlog / vmlog_nice / mlog_clear / get_line of the real mlog.c with a ghost 64-bit message count and a prophecy-chosen watched message; readers verified against get_line's contract (stub via --replace-calls); induction over operations",
+      "The head counter is symbolic over its whole range, so the fold after 2^31 messages and every residue modulo 256 are ordinary cases; each operation re-establishes the invariant, giving histories of any length by induction from the static initial state. "
+      "mlog_dump is decided per watched line index: all 256 in the thorough tier, 15 in the quick tier (partial there).",
+      "Formatting (strdup_printf/fprintf) is external and captured by stubs. CBMC's va_list model is trusted. SMT back ends (z3/cvc5) decide the symbolic-slot queries.",
+      "DESIGN.md 5.C20")
